@@ -158,6 +158,27 @@ Section Generic.
 
 End Generic.
 
+(* ==================================================================== specification vocabulary for traces *)
+Section TraceSpec.
+  Variable num : Type.
+  Variable zero : num.
+  (* the slot after a list of successful trace_t calls (label, snapshot), oldest first *)
+  Definition pushes (names : list nat) (reset : bool) (X : trace num) (l : list (tlabel * list num)) : trace num :=
+    fold_left (fun x e => push num names reset x (fst e) (snd e)) l X.
+  (* passes j+1 .. kk, each recorded under its number with the values of `names` it left at t
+     (st_after ... i = the store after i evaluation passes, starting from v1 = the store after the pre-hook) *)
+  Definition iter_entries (ev : hook num) (o : opts num) (t : Z) (v1 : vals num) (names : list nat) (j kk : nat)
+    : list (tlabel * list num) :=
+    map (fun i => (LIter i, snap num zero (st_after num ev o t v1 i) t names)) (seq (S j) (kk - j)).
+  (* 'end' is recorded only when the period was solved *)
+  Definition end_entry (t : Z) (names : list nat) (x : st) (v' : vals num) : list (tlabel * list num) :=
+    if st_eqb x Solved then [(LEnd, snap num zero v' t names)] else [].
+  (* BaseModel.solve_t's optional seeding of period p from period p + offset *)
+  Definition seeded (d : mdesc) (o : opts num) (s : mstate num) (p : nat) : vals num :=
+    if offset o =? 0 then vals_of s
+    else copy_endo num zero d (vals_of s) p (Z.to_nat (Z.of_nat p + offset o)).
+End TraceSpec.
+
 (* ==================================================================== the mixin *)
 Section TracerFacts.
   Variable num : Type.
@@ -173,10 +194,10 @@ Section TracerFacts.
   Notation solve_t_E := (solve_t_E num sub absf ltb isfin zero).
   Notation loopE := (loopE num sub absf ltb isfin zero).
   Notation traced_solve_t := (traced_solve_t num sub absf ltb isfin zero).
-  Notation traced_ev := (traced_ev num zero).
-  Notation traced_before := (traced_before num zero).
-  Notation traced_after := (traced_after num zero).
-  Notation trace_t := (trace_t num zero).
+  Notation traced_ev := (traced_ev num).
+  Notation traced_before := (traced_before num).
+  Notation traced_after := (traced_after num).
+  Notation trace_t := (trace_t num).
   Notation gather := (gather num).
   Notation snap := (snap num zero).
   Notation push := (push num).
@@ -282,5 +303,675 @@ Section TracerFacts.
     intros (Hv & p & Hp & Hw). rewrite (trace_t_ok cfg t lab a reset v tr p Hv Hp Hw). reflexivity.
   Qed.
 
+
+
+  (* ---------------------------------------------------------------- the wrappers simulate the user's hooks *)
+  Section Sim.
+    Variables (cfg : tcfg) (a : targ) (reset : bool).
+    Variables (ev before after : hook).
+    Hypothesis ev_shape : shape_pres ev.
+    Hypothesis before_shape : shape_pres before.
+    Hypothesis after_shape : shape_pres after.
+    Variables (t : Z) (p : nat) (sh0 : list nat) (tr0 : traces).
+    Hypothesis Hp : py_pos (length tr0) t = Some p.
+    Variable nv : nat.
+    Hypothesis sh0_len : length sh0 = nv.
+    Let names := names_of cfg nv a.
+    Hypothesis names_ok : forall v, shape v = sh0 -> names_valid v t names.
+
+    (* tracing on: the store keeps its shape, the trace list keeps its length, only slot p moves, and slot p
+       stays appendable *)
+    Definition InvOn (v : vals) (x : traces) : Prop :=
+      shape v = sh0 /\ length x = length tr0 /\
+      (reset = true \/ width_ok (nth p x empty_trace) (length names)) /\
+      (forall q, q <> p -> nth q x empty_trace = nth q tr0 empty_trace).
+    (* tracing off: the trace list is not touched at all *)
+    Definition InvOff (v : vals) (x : traces) : Prop := shape v = sh0 /\ x = tr0.
+
+    Lemma InvOn_shape v v' x : shape v = shape v' -> InvOn v x -> InvOn v' x.
+    Proof. intros H (H1 & H2). split; [congruence|exact H2]. Qed.
+    Lemma InvOff_shape v v' x : shape v = shape v' -> InvOff v x -> InvOff v' x.
+    Proof. intros H (H1 & H2). split; [congruence|exact H2]. Qed.
+
+    Lemma shape_nv v : shape v = sh0 -> length v = nv.
+    Proof. intros H. rewrite <- sh0_len, <- H. unfold TracerFacts.shape. rewrite map_length. reflexivity. Qed.
+
+    (* one successful trace_t under the invariant *)
+    Lemma trace_t_step lab v x :
+      InvOn v x ->
+      trace_t cfg t lab a reset v x
+      = (upd p (push names reset (nth p x empty_trace) lab (snap v t names)) x, None) /\
+      forall v', shape v' = sh0 ->
+        InvOn v' (upd p (push names reset (nth p x empty_trace) lab (snap v t names)) x).
+    Proof.
+      intros (Hs & Hl & Hw & Hf).
+      pose proof (shape_nv v Hs) as Hnv.
+      assert (Hp' : py_pos (length x) t = Some p) by (rewrite Hl; exact Hp).
+      split.
+      - pose proof (trace_t_ok cfg t lab a reset v x p) as H. rewrite Hnv in H. fold names in H.
+        apply H; [apply names_ok; exact Hs|exact Hp'|exact Hw].
+      - intros v' Hs'. pose proof (py_pos_lt _ _ _ Hp') as Hlt.
+        split; [exact Hs'|]. split; [rewrite upd_length; exact Hl|]. split.
+        + right. rewrite nth_upd_eq by exact Hlt. apply push_width; [exact Hw|apply snap_length].
+        + intros q Hq. rewrite nth_upd_neq by congruence. apply Hf; exact Hq.
+    Qed.
+
+    Lemma sim_ev_on em cf : truthy a = true ->
+      sim_at num (traces) InvOn t em cf ev (traced_ev cfg a reset ev).
+    Proof.
+      intros Ha k v x HI. unfold Tracer.traced_ev. rewrite Ha.
+      pose proof (ev_shape t em cf k v) as Hsh. destruct (ev t em cf k v) as [v1 r]. cbn [fst snd] in *.
+      assert (Hs1 : shape v1 = sh0) by (rewrite Hsh; exact (proj1 HI)).
+      assert (HI1 : InvOn v1 x) by (apply (InvOn_shape v); [symmetry; exact Hsh|exact HI]).
+      destruct r as [c|]; [cbn [fst snd]; auto|].
+      destruct (trace_t_step (LIter k) v1 x HI1) as (E & HI2). rewrite E. cbn [fst snd]. auto.
+    Qed.
+
+    Lemma sim_after_on em cf : truthy a = true ->
+      sim_at num (traces) InvOn t em cf after (traced_after cfg a reset after).
+    Proof.
+      intros Ha k v x HI. unfold Tracer.traced_after. rewrite Ha.
+      pose proof (after_shape t em cf k v) as Hsh. destruct (after t em cf k v) as [v1 r]. cbn [fst snd] in *.
+      assert (Hs1 : shape v1 = sh0) by (rewrite Hsh; exact (proj1 HI)).
+      assert (HI1 : InvOn v1 x) by (apply (InvOn_shape v); [symmetry; exact Hsh|exact HI]).
+      destruct r as [c|]; [cbn [fst snd]; auto|].
+      destruct (trace_t_step LEnd v1 x HI1) as (E & HI2). rewrite E. cbn [fst snd]. auto.
+    Qed.
+
+    Lemma sim_before_on em cf : truthy a = true ->
+      sim_at num (traces) InvOn t em cf before (traced_before cfg a reset before).
+    Proof.
+      intros Ha k v x HI. unfold Tracer.traced_before. rewrite Ha.
+      destruct (trace_t_step LBefore v x HI) as (E & HI2). rewrite E.
+      pose proof (before_shape t em cf k v) as Hsh. destruct (before t em cf k v) as [v1 r]. cbn [fst snd] in *.
+      assert (Hs1 : shape v1 = sh0) by (rewrite Hsh; exact (proj1 HI)).
+      specialize (HI2 v1 Hs1).
+      destruct r as [c|]; [cbn [fst snd]; auto|].
+      destruct (trace_t_step (LIter 0) v1 _ HI2) as (E2 & HI3). rewrite E2. cbn [fst snd]. auto.
+    Qed.
+
+    Lemma sim_off em cf (h : hook) (hX : xhook num traces) :
+      shape_pres h ->
+      (forall k v x, hX t em cf k v x = lift_hook num traces h t em cf k v x) ->
+      sim_at num (traces) InvOff t em cf h hX.
+    Proof.
+      intros Hsh Heq k v x (Hs & Hx). rewrite Heq. unfold lift_hook.
+      pose proof (Hsh t em cf k v) as H. destruct (h t em cf k v) as [v1 r]. cbn [fst snd] in *.
+      repeat split; [congruence|exact Hx].
+    Qed.
+    (* ------------------------------------------------------------ what the wrappers write, pass by pass *)
+    Section Loop.
+      Hypothesis Ha : truthy a = true.
+      Variables (d : mdesc) (o : opts num) (ps : nat) (v1 : vals).
+      Notation st_after := (st_after num ev o t v1).
+      Notation em := (errors o).
+      Notation cf := (catch_first o).
+
+      Lemma traced_ev_on_eq k v x : InvOn v x ->
+        traced_ev cfg a reset ev t em cf k v x
+        = (let '(v', r) := ev t em cf k v in
+           match r with
+           | Some c => ((v', x), Some c)
+           | None => ((v', upd p (push names reset (nth p x empty_trace) (LIter k) (snap v' t names)) x), None)
+           end).
+      Proof.
+        intros HI. unfold Tracer.traced_ev. rewrite Ha.
+        pose proof (ev_shape t em cf k v) as Hsh. destruct (ev t em cf k v) as [v' r]. cbn [fst] in Hsh.
+        destruct r as [c|]; [reflexivity|].
+        assert (HI1 : InvOn v' x) by (apply (InvOn_shape v); [symmetry; exact Hsh|exact HI]).
+        rewrite (proj1 (trace_t_step (LIter k) v' x HI1)). reflexivity.
+      Qed.
+
+      Lemma traced_after_on_eq k v x : InvOn v x ->
+        traced_after cfg a reset after t em cf k v x
+        = (let '(v', r) := after t em cf k v in
+           match r with
+           | Some c => ((v', x), Some c)
+           | None => ((v', upd p (push names reset (nth p x empty_trace) LEnd (snap v' t names)) x), None)
+           end).
+      Proof.
+        intros HI. unfold Tracer.traced_after. rewrite Ha.
+        pose proof (after_shape t em cf k v) as Hsh. destruct (after t em cf k v) as [v' r]. cbn [fst] in Hsh.
+        destruct r as [c|]; [reflexivity|].
+        assert (HI1 : InvOn v' x) by (apply (InvOn_shape v); [symmetry; exact Hsh|exact HI]).
+        rewrite (proj1 (trace_t_step LEnd v' x HI1)). reflexivity.
+      Qed.
+
+      Lemma traced_before_on_eq k v x : InvOn v x ->
+        traced_before cfg a reset before t em cf k v x
+        = (let x1 := upd p (push names reset (nth p x empty_trace) LBefore (snap v t names)) x in
+           let '(v', r) := before t em cf k v in
+           match r with
+           | Some c => ((v', x1), Some c)
+           | None => ((v', upd p (push names reset (nth p x1 empty_trace) (LIter 0) (snap v' t names)) x1), None)
+           end).
+      Proof.
+        intros HI. unfold Tracer.traced_before. rewrite Ha.
+        destruct (trace_t_step LBefore v x HI) as (E & HI2). rewrite E. cbv zeta.
+        pose proof (before_shape t em cf k v) as Hsh. destruct (before t em cf k v) as [v' r]. cbn [fst] in Hsh.
+        destruct r as [c|]; [reflexivity|].
+        assert (Hs1 : shape v' = sh0) by (rewrite Hsh; exact (proj1 HI)).
+        rewrite (proj1 (trace_t_step (LIter 0) v' _ (HI2 v' Hs1))). reflexivity.
+      Qed.
+
+      Notation pushes := (pushes num names reset).
+      Notation iter_entries := (iter_entries num zero ev o t v1 names).
+      Notation end_entry := (end_entry num zero t names).
+
+      Definition loop_post (j : nat) (x : traces) (R : lres num * traces) : Prop :=
+        match fst R with
+        | LDone v' x' kk _ =>
+            (j <= kk)%nat /\ (x' = Solved -> (S j <= kk)%nat) /\ (x' <> Solved -> v' = st_after kk) /\
+            nth p (snd R) empty_trace = pushes (nth p x empty_trace) (iter_entries j kk ++ end_entry x' v')
+        | LRaise _ _ e _ => e <> NonConvergenceError
+        end.
+
+      Lemma iter_entries_S j kk : (S j <= kk)%nat ->
+        iter_entries j kk = (LIter (S j), snap (st_after (S j)) t names) :: iter_entries (S j) kk.
+      Proof.
+        intros H. unfold TracerFacts.iter_entries. replace (kk - j)%nat with (S (kk - S j)) by lia. reflexivity.
+      Qed.
+
+      Lemma loop_post_step j x R : (p < length x)%nat ->
+        loop_post (S j) (upd p (push names reset (nth p x empty_trace) (LIter (S j)) (snap (st_after (S j)) t names)) x) R ->
+        loop_post j x R.
+      Proof.
+        intros Hlt. unfold loop_post. destruct (fst R) as [v' x' kk lg|]; [|auto].
+        intros (H1 & H2 & H3 & H4). split; [lia|]. split; [intros; lia|]. split; [exact H3|].
+        rewrite H4. rewrite nth_upd_eq by exact Hlt. rewrite (iter_entries_S j kk H1). reflexivity.
+      Qed.
+
+      Lemma loop_post_stop j x x' lg : (p < length x)%nat -> x' <> Solved ->
+        loop_post j x (LDone (st_after (S j)) x' (S j) lg,
+                       upd p (push names reset (nth p x empty_trace) (LIter (S j)) (snap (st_after (S j)) t names)) x).
+      Proof.
+        intros Hlt Hx. unfold loop_post. cbn [fst snd]. split; [lia|]. split; [intros; lia|]. split; [reflexivity|].
+        rewrite nth_upd_eq by exact Hlt. unfold TracerFacts.iter_entries, TracerFacts.end_entry.
+        replace (S j - j)%nat with 1%nat by lia. destruct x'; try reflexivity. congruence.
+      Qed.
+
+      Lemma InvOn_lt v x : InvOn v x -> (p < length x)%nat.
+      Proof. intros (_ & Hl & _). rewrite Hl. exact (py_pos_lt _ _ _ Hp). Qed.
+
+      Lemma loopE_trace : forall n j x cur lg,
+        InvOn (st_after j) x ->
+        loop_post j x (loopE traces (traced_ev cfg a reset ev) (traced_after cfg a reset after)
+                             d o t ps n (S j) (st_after j) x cur lg).
+      Proof.
+        induction n as [|n IH]; intros j x cur lg HI.
+        - cbn [Tracer.loopE]. unfold loop_post. cbn [fst snd]. replace (S j - 1)%nat with j by lia.
+          split; [lia|]. split; [discriminate|]. split; [reflexivity|].
+          unfold TracerFacts.iter_entries, TracerFacts.end_entry. rewrite Nat.sub_diag. reflexivity.
+        - cbn [Tracer.loopE]. rewrite (traced_ev_on_eq (S j) (st_after j) x HI).
+          pose proof (ev_shape t em cf (S j) (st_after j)) as Hsh.
+          destruct (ev t em cf (S j) (st_after j)) as [v' r] eqn:E. cbn [fst] in Hsh.
+          assert (Hv' : v' = st_after (S j)).
+          { cbn [SolverFacts.st_after]. unfold evk. rewrite E. reflexivity. }
+          destruct r as [c|]; [unfold loop_post; cbn [fst]; discriminate|].
+          pose proof (InvOn_lt _ _ HI) as Hlt.
+          assert (Hs1 : shape v' = sh0) by (rewrite Hsh; exact (proj1 HI)).
+          pose proof (proj2 (trace_t_step (LIter (S j)) v' x
+                       (InvOn_shape _ _ _ (eq_sym Hsh) HI)) v' Hs1) as HI1.
+          rewrite Hv' in *.
+          set (x1 := upd p _ x) in *.
+          destruct (negb (all_finite num isfin cur)); [apply loop_post_step; [exact Hlt|apply IH; exact HI1]|].
+          destruct (negb (all_finite num isfin (get_check num zero d (st_after (S j)) ps))).
+          + destruct (errors o); try (unfold loop_post; cbn [fst]; discriminate).
+            * apply loop_post_stop; [exact Hlt|discriminate].
+            * destruct n; [apply loop_post_stop; [exact Hlt|discriminate]|].
+              apply loop_post_step; [exact Hlt|apply IH; exact HI1].
+            * destruct n; [apply loop_post_stop; [exact Hlt|discriminate]|].
+              apply loop_post_step; [exact Hlt|apply IH; exact HI1].
+          + destruct (Z.of_nat (S j) <? min_iter o); [apply loop_post_step; [exact Hlt|apply IH; exact HI1]|].
+            destruct (conv num sub absf ltb (tol o) _ cur); [|apply loop_post_step; [exact Hlt|apply IH; exact HI1]].
+            rewrite (traced_after_on_eq (S j) (st_after (S j)) x1 HI1).
+            destruct (after t em cf (S j) (st_after (S j))) as [v'' r'].
+            destruct r' as [c|]; [unfold loop_post; cbn [fst]; discriminate|].
+            unfold loop_post. cbn [fst snd]. split; [lia|]. split; [intros; lia|]. split; [congruence|].
+            pose proof (InvOn_lt _ _ HI1) as Hlt1.
+            rewrite nth_upd_eq by exact Hlt1. subst x1. rewrite nth_upd_eq by exact Hlt.
+            unfold TracerFacts.iter_entries, TracerFacts.end_entry. replace (S j - j)%nat with 1%nat by lia. reflexivity.
+      Qed.
+    End Loop.
+  End Sim.
+
+  (* ---------------------------------------------------------------- solve_t: non-interference *)
+  Section SolveT.
+    Variables (cfg : tcfg) (a : targ) (reset : bool).
+    Variables (ev before after : hook).
+    Hypothesis ev_shape : shape_pres ev.
+    Hypothesis before_shape : shape_pres before.
+    Hypothesis after_shape : shape_pres after.
+
+    (* Tracing OFF: the traced class run without `trace=` (or with a falsy one) is the plain solve, and the
+       trace component comes back untouched. *)
+    Theorem trace_off_writes_nothing d o t s tr :
+      truthy a = false ->
+      traced_solve_t cfg a reset ev before after d o t s tr
+      = (let '(s', out) := solve_t_M ev before after d o t s in ((s', tr), out)).
+    Proof.
+      intros Ha. unfold Tracer.traced_solve_t. rewrite Ha.
+      pose proof (solve_t_E_sim num sub absf ltb isfin zero traces ev before after
+                   (traced_ev cfg a reset ev) (traced_before cfg a reset before) (traced_after cfg a reset after)
+                   (InvOff (shape (vals_of s)) tr) (InvOff_shape _ _) d o t s tr) as H.
+      cbv zeta in H. destruct H as [H1 H2].
+      - apply sim_off; [exact ev_shape|]. intros k v x. unfold Tracer.traced_ev. rewrite Ha. reflexivity.
+      - apply sim_off; [exact before_shape|]. intros k v x. unfold Tracer.traced_before. rewrite Ha. reflexivity.
+      - apply sim_off; [exact after_shape|]. intros k v x. unfold Tracer.traced_after. rewrite Ha. reflexivity.
+      - split; reflexivity.
+      - destruct (solve_t_M ev before after d o t s) as [s' out].
+        destruct (solve_t_E traces _ _ _ d o t s tr) as [[s2 tr2] out2]. cbn [fst snd] in *.
+        destruct H2 as [_ H2]. inversion H1; subst. reflexivity.
+    Qed.
+
+    (* Tracing ON, first trace_t ('start') cannot fail: erasing the trace component of the traced run gives the
+       untraced run — values, status, iterations, event log, return value / exception class and cause — on
+       every path.  Moreover only the period's own Trace moved and it can be appended to again. *)
+    Theorem traced_solve_t_on d o t s tr p :
+      truthy a = true ->
+      names_valid (vals_of s) t (names_of cfg (length (vals_of s)) a) ->
+      py_pos (length tr) t = Some p ->
+      reset = true \/ width_ok (nth p tr empty_trace) (length (names_of cfg (length (vals_of s)) a)) ->
+      let R := traced_solve_t cfg a reset ev before after d o t s tr in
+      let U := solve_t_M ev before after d o t s in
+      (fst (fst R), snd R) = U /\
+      shape (vals_of (fst U)) = shape (vals_of s) /\
+      length (snd (fst R)) = length tr /\
+      (reset = true \/ width_ok (nth p (snd (fst R)) empty_trace) (length (names_of cfg (length (vals_of s)) a))) /\
+      (forall q, q <> p -> nth q (snd (fst R)) empty_trace = nth q tr empty_trace).
+    Proof.
+      intros Ha Hv Hp Hw. cbv zeta. unfold Tracer.traced_solve_t. rewrite Ha.
+      rewrite (trace_t_ok cfg t LStart a reset (vals_of s) tr p Hv Hp Hw).
+      set (names := names_of cfg (length (vals_of s)) a) in *.
+      set (tr1 := upd p _ tr).
+      assert (Hnv : length (shape (vals_of s)) = length (vals_of s)) by (unfold TracerFacts.shape; apply map_length).
+      assert (Hnames : forall v, shape v = shape (vals_of s) -> names_valid v t names).
+      { intros v Hs. apply (names_valid_shape (vals_of s)); [symmetry; exact Hs|exact Hv]. }
+      pose proof (py_pos_lt _ _ _ Hp) as Hlt.
+      assert (HI : InvOn cfg a reset p (shape (vals_of s)) tr (length (vals_of s)) (vals_of s) tr1).
+      { unfold InvOn. fold names. subst tr1. split; [reflexivity|]. split; [apply upd_length|]. split.
+        - right. rewrite nth_upd_eq by exact Hlt. apply push_width; [exact Hw|apply snap_length].
+        - intros q Hq. apply nth_upd_neq. congruence. }
+      pose proof (solve_t_E_sim num sub absf ltb isfin zero traces ev before after
+                   (traced_ev cfg a reset ev) (traced_before cfg a reset before) (traced_after cfg a reset after)
+                   (InvOn cfg a reset p (shape (vals_of s)) tr (length (vals_of s)))
+                   (InvOn_shape cfg a reset p _ tr _) d o t s tr1
+                   (sim_ev_on cfg a reset ev ev_shape t p _ tr Hp _ Hnv Hnames _ _ Ha)
+                   (sim_before_on cfg a reset before before_shape t p _ tr Hp _ Hnv Hnames _ _ Ha)
+                   (sim_after_on cfg a reset after after_shape t p _ tr Hp _ Hnv Hnames _ _ Ha) HI) as H.
+      cbv zeta in H. destruct H as [H1 (H2 & H3 & H4 & H5)]. fold names in H4.
+      split; [exact H1|]. split; [exact H2|]. split; [exact H3|]. split; [exact H4|exact H5].
+    Qed.
+
+    (* the property's first sentence for solve_t *)
+    Theorem trace_noninterference_solve_t d o t s tr :
+      (truthy a = true -> ready cfg a reset t (vals_of s) tr) ->
+      let R := traced_solve_t cfg a reset ev before after d o t s tr in
+      (fst (fst R), snd R) = solve_t_M ev before after d o t s.
+    Proof.
+      intros Hr. cbv zeta. destruct (truthy a) eqn:Ha.
+      - destruct (Hr eq_refl) as (Hv & p & Hp & Hw).
+        exact (proj1 (traced_solve_t_on d o t s tr p Ha Hv Hp Hw)).
+      - rewrite (trace_off_writes_nothing d o t s tr Ha).
+        destruct (solve_t_M ev before after d o t s) as [s' out]. reflexivity.
+    Qed.
+
+    (* Tracing ON and the first trace_t fails (unknown name, t outside the span, width mismatch): the call
+       raises that exception before the base class is entered; nothing but the period's Trace index moved. *)
+    Theorem traced_solve_t_start_fails d o t s tr e :
+      truthy a = true ->
+      snd (trace_t cfg t LStart a reset (vals_of s) tr) = Some e ->
+      traced_solve_t cfg a reset ev before after d o t s tr
+      = ((s, fst (trace_t cfg t LStart a reset (vals_of s) tr)), Raise e).
+    Proof.
+      intros Ha He. unfold Tracer.traced_solve_t. rewrite Ha.
+      destruct (trace_t cfg t LStart a reset (vals_of s) tr) as [tr1 r]. cbn [fst snd] in *. subst r. reflexivity.
+    Qed.
+
+    (* ------------------------------------------------------------ what a traced solve_t leaves in the Trace *)
+    Lemma trace_of_run_core d o t s tr p s' tr' out v0 :
+      truthy a = true ->
+      names_valid (vals_of s) t (names_of cfg (length (vals_of s)) a) ->
+      py_pos (length tr) t = Some p ->
+      reset = true \/ width_ok (nth p tr empty_trace) (length (names_of cfg (length (vals_of s)) a)) ->
+      shape v0 = shape (vals_of s) ->
+      let names := names_of cfg (length (vals_of s)) a in
+      let tr1 := upd p (push names reset (nth p tr empty_trace) LStart (snap (vals_of s) t names)) tr in
+      (if is_raise (errors o) && negb (all_finite num isfin (get_check num zero d v0 p))
+       then ((with_vals num s v0 (log s), tr1), Raise (SolutionError None))
+       else match traced_before cfg a reset before t (errors o) (catch_first o) 0%nat v0 tr1 with
+            | ((v1, x1), Some c) =>
+                ((with_vals num s v1 (log s ++ [EvBefore t]), x1), Raise (SolutionError (Some c)))
+            | ((v1, x1), None) =>
+                let '(r, x2) := loopE traces (traced_ev cfg a reset ev) (traced_after cfg a reset after)
+                                      d o t p (Z.to_nat (max_iter o)) 1%nat v1 x1
+                                      (get_check num zero d v0 p) (log s ++ [EvBefore t]) in
+                let '(s'', out') := finish num o s p r in ((s'', x2), out')
+            end) = ((s', tr'), out) ->
+      out = Ret true \/ out = Ret false \/ out = Raise NonConvergenceError ->
+      let v1 := fst (before t (errors o) (catch_first o) 0%nat v0) in
+      exists k x,
+        status s' = upd p x (status s) /\ iters s' = upd p (Z.of_nat k) (iters s) /\
+        (out = Ret true <-> x = Solved) /\ (x = Solved -> (1 <= k)%nat) /\
+        (x <> Solved -> vals_of s' = st_after num ev o t v1 k) /\
+        nth p tr' empty_trace
+        = pushes num names reset (nth p tr empty_trace)
+            ([(LStart, snap (vals_of s) t names); (LBefore, snap v0 t names); (LIter 0, snap v1 t names)]
+             ++ iter_entries num zero ev o t v1 names 0 k ++ end_entry num zero t names x (vals_of s')).
+    Proof.
+      intros Ha Hv Hp Hw Hs0 names tr1 Hrun Hout. cbv zeta.
+      assert (Hnv : length (shape (vals_of s)) = length (vals_of s)) by (unfold TracerFacts.shape; apply map_length).
+      assert (Hnames : forall v, shape v = shape (vals_of s) -> names_valid v t names).
+      { intros v Hs. apply (names_valid_shape (vals_of s)); [symmetry; exact Hs|exact Hv]. }
+      pose proof (py_pos_lt _ _ _ Hp) as Hlt.
+      assert (HI0 : InvOn cfg a reset p (shape (vals_of s)) tr (length (vals_of s)) v0 tr1).
+      { unfold InvOn. fold names. subst tr1. split; [exact Hs0|]. split; [apply upd_length|]. split.
+        - right. rewrite nth_upd_eq by exact Hlt. apply push_width; [exact Hw|apply snap_length].
+        - intros q Hq. apply nth_upd_neq. congruence. }
+      destruct (is_raise (errors o) && negb (all_finite num isfin (get_check num zero d v0 p))).
+      { inversion Hrun; subst. destruct Hout as [Q|[Q|Q]]; discriminate Q. }
+      rewrite (traced_before_on_eq cfg a reset before before_shape t p _ tr Hp _ Hnv Hnames Ha o 0%nat v0 tr1 HI0) in Hrun.
+      cbv zeta in Hrun. fold names in Hrun.
+      pose proof (before_shape t (errors o) (catch_first o) 0%nat v0) as Hsh1.
+      destruct (before t (errors o) (catch_first o) 0%nat v0) as [v1 r]. cbn [fst] in *.
+      destruct r as [c|].
+      { inversion Hrun; subst. destruct Hout as [Q|[Q|Q]]; discriminate Q. }
+      assert (Hs1 : shape v1 = shape (vals_of s)) by congruence.
+      set (x1 := upd p (push names reset (nth p tr1 empty_trace) LBefore (snap v0 t names)) tr1) in *.
+      pose proof (proj2 (trace_t_step cfg a reset t p _ tr Hp _ Hnv Hnames LBefore v0 tr1 HI0) v1 Hs1) as HI1.
+      fold names in HI1. fold x1 in HI1.
+      set (x3 := upd p (push names reset (nth p x1 empty_trace) (LIter 0) (snap v1 t names)) x1) in *.
+      pose proof (proj2 (trace_t_step cfg a reset t p _ tr Hp _ Hnv Hnames (LIter 0) v1 x1 HI1) v1 Hs1) as HI3.
+      fold names in HI3. fold x3 in HI3.
+      pose proof (loopE_trace cfg a reset ev after ev_shape after_shape t p _ tr Hp _ Hnv Hnames Ha d o p v1
+                              (Z.to_nat (max_iter o)) 0%nat x3 (get_check num zero d v0 p) (log s ++ [EvBefore t]) HI3) as LT.
+      cbn [SolverFacts.st_after] in LT. unfold loop_post in LT. fold names in LT.
+      destruct (loopE traces _ _ d o t p (Z.to_nat (max_iter o)) 1 v1 x3 _ _) as [r x2]. cbn [fst snd] in LT.
+      destruct r as [v' x kk lg'|v' wr e lg'].
+      - destruct LT as (L1 & L2 & L3 & L4).
+        assert (Hslot : nth p x3 empty_trace
+                        = push names reset (push names reset (push names reset (nth p tr empty_trace) LStart
+                            (snap (vals_of s) t names)) LBefore (snap v0 t names)) (LIter 0) (snap v1 t names)).
+        { subst x3. rewrite nth_upd_eq by (destruct HI1 as (_ & Hl & _); rewrite Hl; exact Hlt).
+          subst x1. rewrite nth_upd_eq by (subst tr1; rewrite upd_length; exact Hlt).
+          subst tr1. rewrite nth_upd_eq by exact Hlt. reflexivity. }
+        cbn [Solver.finish] in Hrun.
+        destruct (st_eqb x Failed && fail_raise o) eqn:EF; inversion Hrun; subst s' tr' out; clear Hrun;
+          exists kk, x; cbn [stamp status iters vals_of].
+        + apply andb_true_iff in EF as [EF _]. assert (x = Failed) by (destruct x; try discriminate; reflexivity). subst x.
+          split; [reflexivity|]. split; [reflexivity|]. split; [split; discriminate|]. split; [discriminate|].
+          split; [exact L3|]. rewrite L4, Hslot. reflexivity.
+        + split; [reflexivity|]. split; [reflexivity|]. split.
+          { destruct x; cbn [st_eqb]; split; intros Q; try discriminate Q; reflexivity. }
+          split; [exact L2|]. split; [exact L3|]. rewrite L4, Hslot. reflexivity.
+      - cbn [Solver.finish] in Hrun. inversion Hrun; subst. destruct Hout as [Q|[Q|Q]]; try discriminate Q.
+        inversion Q; subst. congruence.
+    Qed.
+
+    Theorem trace_of_run d o t s tr p s' tr' out :
+      truthy a = true ->
+      names_valid (vals_of s) t (names_of cfg (length (vals_of s)) a) ->
+      py_pos (length tr) t = Some p -> length tr = length (status s) ->
+      reset = true \/ width_ok (nth p tr empty_trace) (length (names_of cfg (length (vals_of s)) a)) ->
+      traced_solve_t cfg a reset ev before after d o t s tr = ((s', tr'), out) ->
+      out = Ret true \/ out = Ret false \/ out = Raise NonConvergenceError ->
+      let names := names_of cfg (length (vals_of s)) a in
+      let v0 := seeded num zero d o s p in
+      let v1 := fst (before t (errors o) (catch_first o) 0%nat v0) in
+      exists k x,
+        status s' = upd p x (status s) /\ iters s' = upd p (Z.of_nat k) (iters s) /\
+        (out = Ret true <-> x = Solved) /\ (x = Solved -> (1 <= k)%nat) /\
+        (x <> Solved -> vals_of s' = st_after num ev o t v1 k) /\
+        nth p tr' empty_trace
+        = pushes num names reset (nth p tr empty_trace)
+            ([(LStart, snap (vals_of s) t names); (LBefore, snap v0 t names); (LIter 0, snap v1 t names)]
+             ++ iter_entries num zero ev o t v1 names 0 k ++ end_entry num zero t names x (vals_of s')).
+    Proof.
+      intros Ha Hv Hp Hlen Hw Hrun Hout. cbv zeta.
+      unfold Tracer.traced_solve_t in Hrun. rewrite Ha in Hrun.
+      rewrite (trace_t_ok cfg t LStart a reset (vals_of s) tr p Hv Hp Hw) in Hrun.
+      unfold Tracer.solve_t_E in Hrun.
+      destruct (max_iter o <? min_iter o).
+      { inversion Hrun; subst. destruct Hout as [Q|[Q|Q]]; discriminate Q. }
+      rewrite <- Hlen, Hp in Hrun.
+      destruct (negb (feasible d (length tr) p)).
+      { inversion Hrun; subst. destruct Hout as [Q|[Q|Q]]; discriminate Q. }
+      unfold seeded. destruct (offset o =? 0).
+      - apply (trace_of_run_core d o t s tr p s' tr' out (vals_of s) Ha Hv Hp Hw eq_refl Hrun Hout).
+      - destruct (Z.of_nat p + offset o <? 0).
+        { inversion Hrun; subst. destruct Hout as [Q|[Q|Q]]; discriminate Q. }
+        destruct (Z.of_nat (length tr) <=? Z.of_nat p + offset o).
+        { inversion Hrun; subst. destruct Hout as [Q|[Q|Q]]; discriminate Q. }
+        apply (trace_of_run_core d o t s tr p s' tr' out _ Ha Hv Hp Hw (shape_copy_endo num zero d _ p _) Hrun Hout).
+    Qed.
+  End SolveT.
+
+  (* ---------------------------------------------------------------- closed forms of `pushes` *)
+  Lemma pushes_append names (Y : trace) l :
+    tr_values Y <> [] ->
+    pushes num names false Y l = mkTrace (tr_names Y) (tr_index Y ++ map fst l) (tr_values Y ++ map snd l).
+  Proof.
+    unfold pushes. revert Y. induction l as [|[lab res] l IH]; intros Y HY.
+    - cbn [fold_left map]. rewrite !app_nil_r. destruct Y; reflexivity.
+    - cbn [fold_left fst snd map]. rewrite IH.
+      + unfold Tracer.push, Tracer.is_empty. destruct (tr_values Y) eqn:E; [congruence|].
+        cbn [orb tr_names tr_index tr_values]. rewrite <- !app_assoc. reflexivity.
+      + unfold Tracer.push, Tracer.is_empty. destruct (tr_values Y) eqn:E; [congruence|].
+        cbn [orb tr_values]. discriminate.
+  Qed.
+
+  Lemma pushes_from_empty names (X : trace) e l :
+    is_empty num X = true ->
+    pushes num names false X (e :: l) = mkTrace names (fst e :: map fst l) (snd e :: map snd l).
+  Proof.
+    intros HX.
+    change (pushes num names false X (e :: l))
+      with (pushes num names false (push names false X (fst e) (snd e)) l).
+    assert (E : push names false X (fst e) (snd e) = mkTrace names [fst e] [snd e])
+      by (unfold Tracer.push; rewrite HX; reflexivity).
+    rewrite E. rewrite pushes_append by (cbn [tr_values]; discriminate). reflexivity.
+  Qed.
+
+  Lemma pushes_reset names (X : trace) l e :
+    pushes num names true X (l ++ [e]) = mkTrace names [fst e] [snd e].
+  Proof.
+    unfold pushes. rewrite fold_left_app. cbn [fold_left]. unfold Tracer.push. rewrite orb_true_r. reflexivity.
+  Qed.
+
+  Lemma is_empty_width (X : trace) w : is_empty num X = true -> width_ok X w.
+  Proof. unfold Tracer.is_empty, width_ok. destruct (tr_values X); [auto|discriminate]. Qed.
+
+  (* ---------------------------------------------------------------- the property's second sentence *)
+  Section Corollaries.
+    Variables (cfg : tcfg) (a : targ).
+    Variables (ev before after : hook).
+    Hypothesis ev_shape : shape_pres ev.
+    Hypothesis before_shape : shape_pres before.
+    Hypothesis after_shape : shape_pres after.
+
+    (* reset=False, the period's Trace empty, the period SOLVED: labels start, before, 0, 1..k, end with
+       k = iterations[t] >= 1; snapshot j = the traced variables after pass j (0 = after the pre-hook);
+       the last snapshot = the stored solution *)
+    Theorem trace_shape_solved d o t s tr p s' tr' :
+      truthy a = true ->
+      names_valid (vals_of s) t (names_of cfg (length (vals_of s)) a) ->
+      py_pos (length tr) t = Some p -> length tr = length (status s) ->
+      is_empty num (nth p tr empty_trace) = true ->
+      traced_solve_t cfg a false ev before after d o t s tr = ((s', tr'), Ret true) ->
+      let names := names_of cfg (length (vals_of s)) a in
+      let v0 := seeded num zero d o s p in
+      let v1 := fst (before t (errors o) (catch_first o) 0%nat v0) in
+      exists k, (1 <= k)%nat /\
+        status s' = upd p Solved (status s) /\ iters s' = upd p (Z.of_nat k) (iters s) /\
+        nth p tr' empty_trace
+        = mkTrace names
+            (LStart :: LBefore :: map LIter (seq 0 (S k)) ++ [LEnd])
+            (snap (vals_of s) t names :: snap v0 t names
+             :: map (fun j => snap (st_after num ev o t v1 j) t names) (seq 0 (S k)) ++ [snap (vals_of s') t names]).
+    Proof.
+      intros Ha Hv Hp Hlen HX Hrun. cbv zeta.
+      destruct (trace_of_run cfg a false ev before after ev_shape before_shape after_shape d o t s tr p s' tr' _
+                  Ha Hv Hp Hlen (or_intror (is_empty_width _ _ HX)) Hrun (or_introl eq_refl))
+        as (k & x & Hst & Hit & Hx & Hk & _ & Htr).
+      assert (x = Solved) by (apply Hx; reflexivity). subst x.
+      exists k. split; [apply Hk; reflexivity|]. split; [exact Hst|]. split; [exact Hit|].
+      rewrite Htr. cbn [app]. rewrite pushes_from_empty by exact HX.
+      unfold iter_entries, end_entry. cbn [st_eqb fst snd map]. rewrite !map_app, !map_map. cbn [fst snd map].
+      rewrite Nat.sub_0_r. reflexivity.
+    Qed.
+
+    (* ... the period NOT solved (returned False, or NonConvergenceError): the trace stops after the last pass
+       k = iterations[t] (no 'end'), and that last snapshot is what is stored *)
+    Theorem trace_shape_unsolved d o t s tr p s' tr' out :
+      truthy a = true ->
+      names_valid (vals_of s) t (names_of cfg (length (vals_of s)) a) ->
+      py_pos (length tr) t = Some p -> length tr = length (status s) ->
+      is_empty num (nth p tr empty_trace) = true ->
+      traced_solve_t cfg a false ev before after d o t s tr = ((s', tr'), out) ->
+      out = Ret false \/ out = Raise NonConvergenceError ->
+      let names := names_of cfg (length (vals_of s)) a in
+      let v0 := seeded num zero d o s p in
+      let v1 := fst (before t (errors o) (catch_first o) 0%nat v0) in
+      exists k x, x <> Solved /\
+        status s' = upd p x (status s) /\ iters s' = upd p (Z.of_nat k) (iters s) /\
+        vals_of s' = st_after num ev o t v1 k /\
+        nth p tr' empty_trace
+        = mkTrace names
+            (LStart :: LBefore :: map LIter (seq 0 (S k)))
+            (snap (vals_of s) t names :: snap v0 t names
+             :: map (fun j => snap (st_after num ev o t v1 j) t names) (seq 0 (S k))).
+    Proof.
+      intros Ha Hv Hp Hlen HX Hrun Hout. cbv zeta.
+      destruct (trace_of_run cfg a false ev before after ev_shape before_shape after_shape d o t s tr p s' tr' out
+                  Ha Hv Hp Hlen (or_intror (is_empty_width _ _ HX)) Hrun (or_intror Hout))
+        as (k & x & Hst & Hit & Hx & _ & Hv' & Htr).
+      assert (Hns : x <> Solved).
+      { intros Q. apply Hx in Q. destruct Hout as [H|H]; rewrite H in Q; discriminate Q. }
+      exists k, x. split; [exact Hns|]. split; [exact Hst|]. split; [exact Hit|]. split; [apply Hv'; exact Hns|].
+      rewrite Htr. cbn [app]. rewrite pushes_from_empty by exact HX.
+      unfold iter_entries, end_entry. destruct x; try congruence;
+        cbn [st_eqb fst snd map]; rewrite !map_app, !map_map; cbn [fst snd map];
+        rewrite Nat.sub_0_r, !app_nil_r; reflexivity.
+    Qed.
+
+    (* reset=True is passed to EVERY trace_t call of the run, so each snapshot replaces the previous one:
+       after a solved period only 'end' (= the stored solution) is left, whatever the Trace held before *)
+    Theorem trace_reset_keeps_last_only d o t s tr p s' tr' :
+      truthy a = true ->
+      names_valid (vals_of s) t (names_of cfg (length (vals_of s)) a) ->
+      py_pos (length tr) t = Some p -> length tr = length (status s) ->
+      traced_solve_t cfg a true ev before after d o t s tr = ((s', tr'), Ret true) ->
+      let names := names_of cfg (length (vals_of s)) a in
+      nth p tr' empty_trace = mkTrace names [LEnd] [snap (vals_of s') t names].
+    Proof.
+      intros Ha Hv Hp Hlen Hrun. cbv zeta.
+      destruct (trace_of_run cfg a true ev before after ev_shape before_shape after_shape d o t s tr p s' tr' _
+                  Ha Hv Hp Hlen (or_introl eq_refl) Hrun (or_introl eq_refl))
+        as (k & x & _ & _ & Hx & _ & _ & Htr).
+      assert (x = Solved) by (apply Hx; reflexivity). subst x.
+      rewrite Htr. unfold end_entry. cbn [st_eqb]. rewrite !app_assoc. rewrite pushes_reset. reflexivity.
+    Qed.
+  End Corollaries.
+
+  (* ---------------------------------------------------------------- solve_period and solve *)
+  Section Entry.
+    Variables (cfg : tcfg) (a : targ) (reset : bool).
+    Variables (ev before after : hook).
+    Hypothesis ev_shape : shape_pres ev.
+    Hypothesis before_shape : shape_pres before.
+    Hypothesis after_shape : shape_pres after.
+    Notation traced_solve_period := (traced_solve_period num sub absf ltb isfin zero cfg a reset ev before after).
+    Notation plain_solve_period := (plain_solve_period num sub absf ltb isfin zero ev before after).
+    Notation traced_solve := (traced_solve num sub absf ltb isfin zero cfg a reset ev before after).
+    Notation traced_fold := (traced_fold num sub absf ltb isfin zero cfg a reset ev before after).
+    Notation plain_solve := (plain_solve num sub absf ltb isfin zero ev before after).
+    Notation plain_fold := (plain_fold num sub absf ltb isfin zero ev before after).
+
+    Theorem trace_noninterference_solve_period span d o lab s tr :
+      (forall q, locate span lab = Some q -> truthy a = true -> ready cfg a reset (Z.of_nat q) (vals_of s) tr) ->
+      let R := traced_solve_period span d o lab s tr in
+      (fst (fst R), snd R) = plain_solve_period span d o lab s.
+    Proof.
+      intros Hr. cbv zeta. unfold Tracer.traced_solve_period, Tracer.plain_solve_period.
+      destruct (locate span lab) as [q|]; [|reflexivity].
+      apply (trace_noninterference_solve_t cfg a reset ev before after ev_shape before_shape after_shape).
+      apply Hr. reflexivity.
+    Qed.
+
+    (* `ready` at any period survives a traced solve of any period *)
+    Lemma ready_preserved t t' v v' (tr tr' : traces) p :
+      shape v' = shape v -> length tr' = length tr -> py_pos (length tr) t = Some p ->
+      (reset = true \/ width_ok (nth p tr' empty_trace) (length (names_of cfg (length v) a))) ->
+      (forall q, q <> p -> nth q tr' empty_trace = nth q tr empty_trace) ->
+      ready cfg a reset t' v tr -> ready cfg a reset t' v' tr'.
+    Proof.
+      intros Hs Hl Hp Hw Hf (Hv & p' & Hp' & Hw'). unfold ready.
+      rewrite (shape_length num _ _ Hs). split; [apply (names_valid_shape v); [symmetry; exact Hs|exact Hv]|].
+      exists p'. rewrite Hl. split; [exact Hp'|].
+      destruct (Nat.eq_dec p' p) as [->|Hne]; [exact Hw|]. rewrite Hf by exact Hne. exact Hw'.
+    Qed.
+
+    Definition ready_all (ps : list nat) (v : vals) (tr : traces) : Prop :=
+      forall q, In q ps -> ready cfg a reset (Z.of_nat q) v tr.
+
+    Lemma traced_fold_erase d o : forall ps s tr,
+      (truthy a = true -> ready_all ps (vals_of s) tr) ->
+      let R := traced_fold d o ps s tr in
+      (fst (fst R), snd R) = plain_fold d o ps s.
+    Proof.
+      induction ps as [|q r IH]; intros s tr Hr; [reflexivity|].
+      cbv zeta. cbn [Tracer.traced_fold Tracer.plain_fold].
+      destruct (truthy a) eqn:Ha.
+      - specialize (Hr eq_refl).
+        destruct (Hr q (or_introl eq_refl)) as (Hv & p & Hp & Hw).
+        pose proof (traced_solve_t_on cfg a reset ev before after ev_shape before_shape after_shape
+                      d o (Z.of_nat q) s tr p Ha Hv Hp Hw) as H.
+        cbv zeta in H. destruct H as (H1 & H2 & H3 & H4 & H5).
+        destruct (traced_solve_t cfg a reset ev before after d o (Z.of_nat q) s tr) as [[s1 tr1] out1].
+        destruct (solve_t_M ev before after d o (Z.of_nat q) s) as [s1' out1'].
+        cbn [fst snd] in *. inversion H1; subst s1' out1'. clear H1.
+        destruct out1 as [b|e]; [|reflexivity].
+        assert (Hr1 : true = true -> ready_all r (vals_of s1) tr1).
+        { intros _ q' Hq'. apply (ready_preserved (Z.of_nat q) (Z.of_nat q') (vals_of s) (vals_of s1) tr tr1 p H2 H3 Hp H4 H5).
+          apply Hr. right. exact Hq'. }
+        specialize (IH s1 tr1 Hr1). cbv zeta in IH.
+        destruct (traced_fold d o r s1 tr1) as [[s2 tr2] out2].
+        destruct (plain_fold d o r s1) as [s2' out2']. cbn [fst snd] in IH. inversion IH; subst.
+        destruct out2'; reflexivity.
+      - rewrite (trace_off_writes_nothing cfg a reset ev before after ev_shape before_shape after_shape d o _ s tr Ha).
+        destruct (solve_t_M ev before after d o (Z.of_nat q) s) as [s1 out1].
+        destruct out1 as [b|e]; [|reflexivity].
+        assert (Hr1 : false = true -> ready_all r (vals_of s1) tr) by (intros Q; discriminate Q).
+        specialize (IH s1 tr Hr1). cbv zeta in IH.
+        destruct (traced_fold d o r s1 tr) as [[s2 tr2] out2].
+        destruct (plain_fold d o r s1) as [s2' out2']. cbn [fst snd] in IH. inversion IH; subst.
+        destruct out2'; reflexivity.
+    Qed.
+
+    (* solve(): one traced solve_t per period, in order; erasing the traces gives the untraced solve() —
+       the list of flags, the exception that stopped it, and every period's values / status / iterations *)
+    Theorem trace_noninterference_solve d o ps s tr :
+      (truthy a = true -> ready_all ps (vals_of s) tr) ->
+      let R := traced_solve d o ps s tr in
+      (fst (fst R), snd R) = plain_solve d o ps s.
+    Proof.
+      intros Hr. cbv zeta. unfold Tracer.traced_solve, Tracer.plain_solve.
+      destruct (max_iter o <? min_iter o); [reflexivity|]. apply traced_fold_erase. exact Hr.
+    Qed.
+
+    (* tracing off: solve() leaves every Trace alone *)
+    Theorem trace_off_solve_writes_nothing d o : forall ps s tr,
+      truthy a = false -> snd (fst (traced_solve d o ps s tr)) = tr.
+    Proof.
+      intros ps s tr Ha. unfold Tracer.traced_solve. destruct (max_iter o <? min_iter o); [reflexivity|].
+      revert s tr. induction ps as [|q r IH]; intros s tr; [reflexivity|].
+      cbn [Tracer.traced_fold].
+      rewrite (trace_off_writes_nothing cfg a reset ev before after ev_shape before_shape after_shape d o _ s tr Ha).
+      destruct (solve_t_M ev before after d o (Z.of_nat q) s) as [s1 out1].
+      destruct out1 as [b|e]; [|reflexivity].
+      specialize (IH s1 tr). destruct (traced_fold d o r s1 tr) as [[s2 tr2] out2]. cbn [fst snd] in *.
+      destruct out2; exact IH.
+    Qed.
+  End Entry.
 
 End TracerFacts.
